@@ -112,6 +112,22 @@ def run(prop, tier):
                 records.append(dict(id=rid, kind="same", a=FX.fixseq(v[tix_ok]), b=FX.fixseq(r_[tix_ok])))
                 index[rid] = dict(model=mname, request={k: rq[k] for k in ("outputs", "pops", "opt")}, series=s, got=[float(x) for x in v[tix]], alone=[float(x) for x in r_[tix]])
                 rid += 1
+        # a formula output that is *named* like a model quantity, requested next to an aggregation that uses that quantity: the aggregation is still
+        # the aggregation of the model quantities
+        p0_ = m["pops"][0]
+        alone_ = np.array(at.PlotData(res, outputs=[{"aggn": list(m["agg_n"])}], pops=[p0_]).series[0].vals, dtype=float)
+        for first in (True, False):
+            items_ = [{m["agg_n"][0]: m["formula"]}, {"aggn": list(m["agg_n"])}]
+            try:
+                d_ = at.PlotData(res, outputs=items_ if first else items_[::-1], pops=[p0_])
+                v_ = np.array([s_ for s_ in d_.series if s_.output == "aggn"][0].vals, dtype=float)
+                okk = [t_ for t_ in tix if np.isfinite(v_[t_]) and np.isfinite(alone_[t_])]
+                records.append(dict(id=rid, kind="same", a=FX.fixseq(v_[okk]), b=FX.fixseq(alone_[okk])))
+                index[rid] = dict(model=mname, request=dict(outputs=["formula named %s" % m["agg_n"][0], "aggn"] if first else ["aggn", "formula named %s" % m["agg_n"][0]], pops=[p0_], opt=["none", "none"]),
+                                  series=dict(pop=p0_, output="aggn", omethod="n/a", pmethod="n/a"), got=[float(x) for x in v_[tix]], alone=[float(x) for x in alone_[tix]])
+                rid += 1
+            except Exception as ex:
+                V.violation("C20 PlotData raised %s" % type(ex).__name__, dict(model=mname, request="formula named like a model quantity", error=str(ex)[:300]))
         # arithmetic of the references against their parts (one record per time index)
         for (o, p, om, pm), v in list(ref.items()):
             pl = m["pops"] if p == "T" else m["pops"][:2] if p == "S" else [p]
